@@ -254,6 +254,11 @@ def run_derived(case, acc):
     acc.events += len(events) + 1
     acc.traces += 1
     exp = harness.expected_raw(spec, events)
+    if name in ('mean', 'sum'):
+        # the fold definition is mathematical; the last bits of a float depend on the summation algorithm
+        rnd = lambda ev: (ev[0], ev[1], float('%.12g' % ev[2])) if (ev[0] == 'n' and isinstance(ev[2], float)) else ev
+        exp = [rnd(e) for e in exp]
+        sink.items = [rnd(e) for e in sink.items]
     out = []
     sp = harness.status_problem(sink)
     if sp:
